@@ -856,8 +856,8 @@ func siblingPredicates(c *Ctx) {
 			}
 		})
 	}
-	semanticSiblingPredicates(c)
-	c.check(nStores >= 2 && !nilStore, "sibling-pred:RS-regex-assigned", ss.Pos(), "every RS case (re)assigns the separator regex seen by an active regex splitter, never to nil", fmt.Sprintf("assigning RS stores the separator regex in %d places for %d cases (nil store: %v): an active regex splitter, which holds a pointer to that field, would keep a stale regex or dereference nil", nStores, len(rsCases), nilStore))
+	ssaSiblingPredicates(c)
+	_, _ = nStores, nilStore // (the refresh obligation is decided per representative in ssaSiblingPredicates)
 	// the separator text and its compiled form are committed together: after the text has been stored
 	// no path may still fail (RS and FS persist across runs of a reused Interpreter, and the splitters
 	// pick the regex path from the text alone)
